@@ -3,6 +3,7 @@ import random
 import re as _re
 import tracegen
 import framework as fw
+import translate
 
 ID = "C18"
 COQ_IMPORTS = ["From HTA.lib Require Import Regex.", "From HTA.model Require Import C18_Model."]
@@ -10,6 +11,7 @@ SOURCES = {"hta/common/trace_filter.py": ["IterationFilter", "IterationIndexFilt
                                           "NameStringColumnFilter", "NameIdColumnFilter", "NameFilter", "_filter_gpu_kernels_with_cuda_sync",
                                           "GPUKernelFilter", "CPUOperatorFilter", "CompositeFilter", "MemCopyEventFilter"],
            "hta/utils/utils.py": ["get_symbol_column_names"]}
+TRANSLATE = [translate.gen_filter_rules]
 N_CASES = {"quick": 200, "thorough": 3000}
 RULE = ("frames = all ranks of a generated, loaded file set concatenated with a rank column, once with unique labels and once with the repeated per-rank "
         "labels pd.concat leaves (plus the empty frame); per frame 10 random filters: each class with "
